@@ -38,7 +38,7 @@ LEMMA_TAG = build.LEMMA_TAG
 def unit_tags(unit):
     """property ids tagged anywhere in the unit's spec / lemma files (without building)"""
     tags = set()
-    for sp in unit.get('spec_files', [unit['name'] + '.spec']):
+    for sp in [unit['name'] + '.spec']:
         p = os.path.join(VERIF, 'contracts', sp)
         if os.path.exists(p):
             for m in re.finditer(r'^\s*@[A-Za-z0-9_.\-]+\s*\[([A-Z0-9, ]*)\]', open(p).read(), re.M):
@@ -129,6 +129,8 @@ def classify(unit_name, meta, vr):
     if oj is None or oj.get('verification-results') is None:
         return [], ['verus produced no result for unit %s (front-end error?): %s' % (unit_name, first_error(vr))], [], {}
     res = oj['verification-results']
+    if res.get('encountered-error') and not res.get('verified') and any(d['level'] == 'error' and not any(m in (d['message'] or '') for m in VERIF_FAIL_MSGS) and not (d['message'] or '').startswith('aborting') for d in vr['diags']):
+        return [], ['verus/rustc front-end error in unit %s: %s' % (unit_name, first_error(vr))], [], {}
     if res.get('encountered-vir-error'):
         return [], ['verus front-end (VIR) error in unit %s: %s' % (unit_name, first_error(vr))], [], {}
     obls = meta['obligations']
